@@ -332,6 +332,16 @@ func verifTimerQueries(t *testing.T, rng *rand.Rand) {
 		// the queries are evaluated on what the real parser returned
 		scheds.put(map[string]interface{}{"id": ti + 1, "str": str, "timer": verifTimerASTs(parsed)})
 
+		var spanClocks []int64
+		for _, s := range parsed {
+			for _, c := range s.ClockSpans {
+				st := int64(c.Start.Hour*3600 + c.Start.Minute*60)
+				en := int64(c.End.Hour*3600 + c.End.Minute*60)
+				for _, x := range []int64{st - 1, st, en - 60, en, en + 1, en + 120, en + 300} {
+					spanClocks = append(spanClocks, (x+86400)%86400)
+				}
+			}
+		}
 		emitted := 0
 		emit := func(last, now, max int64) {
 			if now < 0 || last < 0 || now > 1200*86400 || last > 1200*86400 {
@@ -354,8 +364,11 @@ func verifTimerQueries(t *testing.T, rng *rand.Rand) {
 				day = days[rng.Intn(len(days))]
 			}
 			var clk int64
-			if rng.Intn(5) == 0 {
+			if k := rng.Intn(6); k == 0 {
 				clk = int64(rng.Intn(86400))
+			} else if k == 1 && len(spanClocks) > 0 {
+				// around the configured ends of the timer's own clock spans (just after a window's end)
+				clk = spanClocks[rng.Intn(len(spanClocks))]
 			} else {
 				clk = int64(verifTimerClocks[rng.Intn(len(verifTimerClocks))])
 			}
